@@ -13,7 +13,7 @@ import json
 import os
 import random
 
-from .. import core
+from .. import core, gen
 
 LEVEL = "model_checking"
 
@@ -34,14 +34,18 @@ class _Bio:
         self.atoms = atoms
 
 
-def _real_atom(p):
+def _real_atom(p, k=0):
+    """a real Atom built the way the reader builds it (from an ATOM record).  Atoms are objects: what they are called does not
+    matter to a cell list, so the first two atoms of a history carry the same chain / residue / atom name (as the copies of a
+    concatenated or TER-separated homo-oligomer do) and the others differ."""
     core.use_repo()
-    from pdb2pqr import structures
+    from pdb2pqr import structures, pdb as ppdb
 
-    a = structures.Atom.__new__(structures.Atom)
+    lab = max(k - 1, 0)
+    rec = {"rec": "ATOM", "name": "CA", "resname": "ALA", "chain": "A", "resseq": 1 + lab, "icode": "", "xyz": (0.0, 0.0, 0.0)}
+    a = structures.Atom(ppdb.ATOM(gen.pdb_line(rec, 1)), "ATOM", None)
     a.x, a.y, a.z = p[0] / 1000.0, p[1] / 1000.0, p[2] / 1000.0
     a.cell = None
-    a.name = "X"
     return a
 
 
@@ -55,9 +59,9 @@ def replay_history(h, size, offset=(0, 0, 0)):
     tr.qmode = "cell"
     names = sorted(h["pos0"])
     atoms = {}
-    for n in names:
+    for k_, n in enumerate(names):
         p = [h["pos0"][n][i] + offset[i] for i in range(3)]
-        atoms[n] = _real_atom(p)
+        atoms[n] = _real_atom(p, k_)
         tr.aid(atoms[n])
     tr.install({"cells", "coords"})
     try:
